@@ -445,6 +445,33 @@ class G:
             self.emit("isect %s %s" % (e0, e1))
         # operands that TOUCH: the smallest value of one chunk is the largest value of the other's; the receiver grown by single
         # insertions (its slice has spare capacity), a clone of it (exact capacity) and an edited one
+        # a run operand built by ascending range insertions (its interval slice has spare capacity), united with several operands
+        # whose runs all lie beyond its last run: EARLIER results are looked at again after the later calls
+        for k in (self.key(), self.key()):
+            base = k * CH
+            x = self.fresh()
+            self.emit("new %s" % x)
+            for j in range(r.choice([3, 5])):
+                self.emit("addr %s %d %d" % (x, base + 1000 * j + 10, base + 1000 * j + 200))
+            ys, zs = [], []
+            for j in range(3):
+                y = self.fresh()
+                self.emit("new %s" % y)
+                for t in range(r.choice([1, 2, 3])):
+                    self.emit("addr %s %d %d" % (y, base + 20000 + 5000 * j + 700 * t, base + 20000 + 5000 * j + 700 * t + 150 + j))
+                ys.append(y)
+            for y in ys:
+                z = self.fresh()
+                self.emit("or %s %s %s" % (z, x, y))
+                zs.append(z)
+            self.emit("orcard %s %s" % (x, ys[0]))
+            c = self.fresh()
+            self.emit("cowclone %s %s" % (c, x))
+            self.emit("ior %s %s" % (c, ys[1]))
+            for z in zs:
+                self.emit("dig %s" % z)
+            self.emit("dig %s" % x)
+            self.count("alg:spare-capacity-runs")
         for n1, n2 in [(3, 1), (50, 4), (100, 20), (600, 300)]:
             k = self.key()
             base = k * CH
